@@ -153,8 +153,11 @@ let bound_for (g : ogram) : int =
   let used = dedupe (List.concat_map (fun (_, b) -> List.filter_map (function T a -> Some a | _ -> None) b) g.ps) in
   let nt = List.length used and np = List.length g.ps in
   if nt <= 1 then k_len
-  else if nt = 2 then (if np <= 300 then k_len else k_len - 1)
-  else (if np <= 60 then 6 else if np <= 200 then 5 else 4)
+  else if nt = 2 then (if np <= 120 then k_len else if np <= 400 then k_len - 1 else k_len - 2)
+  else if nt = 3 then (if np <= 10 then 6 else if np <= 60 then 5 else 4)
+  else if nt = 4 then (if np <= 30 then 5 else 4)
+  else if nt <= 6 then 4
+  else (if np <= 40 then 4 else 3)
 
 let solitary_terminals (g : ogram) = List.for_all (fun (_, b) -> List.length b = 1 || List.for_all (function T _ -> false | NT _ -> true) b) g.ps
 let at_most_binary (g : ogram) = List.for_all (fun (_, b) -> List.length b <= 2) g.ps
@@ -255,7 +258,7 @@ let () =
                if List.sort compare gg.ps <> List.sort compare og.ps || gg.st <> og.st then changed := true;
                maxs "max_output_productions" (List.length gg.ps);
                (* ---- property-level checks on the Go output *)
-               if c08 && !t_lang -. case_t0 > 6.0 then bump "language_comparisons_skipped_case_time_budget"
+               if c08 && !t_lang -. case_t0 > 1.5 then bump "language_comparisons_skipped_case_time_budget"
                else if c08 then begin
                  let k = bound_for gg in
                  bump ("language_comparisons_with_bound_" ^ string_of_int k);
